@@ -790,6 +790,102 @@ func C08(c *core.Ctx) {
 		c.Floor("R8.5", "route-removal stores in RIB removal function "+m, n, 1)
 	}
 	_ = types.Typ
+	// ---- R8.10 the reaper wakes up within its tick: the delay it re-arms its timer with is, on
+	// every value flow, the tick constant itself or a computed delay that passed an edge
+	// asserting "not longer than the tick" (or a min with it). An entry inserted after the
+	// timer was armed is only looked at on the next wake-up — a delay computed from the
+	// current queue head alone, unbounded, lets it outlive its lifetime by however long the
+	// head had left.
+	if up := c.Fn("R8.10", "fw/table", "PitCsTree", "Update"); up != nil {
+		nArm := 0
+		core.InstrsDeep(up, func(in ssa.Instruction) {
+			ci, ok := in.(ssa.CallInstruction)
+			if !ok || len(ci.Common().Args) < 1 {
+				return
+			}
+			id, okID := core.Callee(ci.Common())
+			if !okID || id.Pkg != "time" || (id.Name != "AfterFunc" && id.Name != "NewTimer" && id.Name != "After" && id.Name != "Reset") {
+				return
+			}
+			nArm++
+			arg := ci.Common().Args[0]
+			if id.Name == "Reset" && len(ci.Common().Args) > 1 {
+				arg = ci.Common().Args[1]
+			}
+			// computed (non-constant) leaves of the delay
+			var leaves []ssa.Value
+			seen := map[ssa.Value]bool{}
+			var walk func(v ssa.Value)
+			walk = func(v ssa.Value) {
+				v = core.Strip(v)
+				if seen[v] {
+					return
+				}
+				seen[v] = true
+				switch y := v.(type) {
+				case *ssa.Phi:
+					for _, e := range y.Edges {
+						walk(e)
+					}
+				case *ssa.Const:
+				case *ssa.UnOp:
+					if _, isG := y.X.(*ssa.Global); !isG {
+						leaves = append(leaves, v)
+					}
+				case *ssa.Call:
+					if b, isB := y.Call.Value.(*ssa.Builtin); isB && b.Name() == "min" {
+						for _, a := range y.Call.Args {
+							if _, isC := core.Strip(a).(*ssa.Const); isC {
+								return // min(x, constant) is bounded by the constant
+							}
+							if u, isU := core.Strip(a).(*ssa.UnOp); isU {
+								if _, isG := u.X.(*ssa.Global); isG {
+									return
+								}
+							}
+						}
+					}
+					leaves = append(leaves, v)
+				default:
+					leaves = append(leaves, v)
+				}
+			}
+			walk(arg)
+			bad := ""
+			for _, leaf := range leaves {
+				lf := leaf
+				bounded := &core.Atom{Name: "delay ≤ tick", Match: func(cond ssa.Value) (int, int) {
+					op, x, y, okC := core.Cmp(cond)
+					if !okC {
+						return 0, 0
+					}
+					if core.StripConv(y) == core.StripConv(lf) {
+						x, y, op = y, x, core.Swap(op)
+					}
+					if core.StripConv(x) != core.StripConv(lf) {
+						return 0, 0
+					}
+					if k, isC := core.ConstInt(y); isC && k <= 0 {
+						return 0, 0 // a sign test, not an upper bound
+					}
+					switch op {
+					case token.GTR, token.GEQ:
+						return -1, 1
+					case token.LSS, token.LEQ:
+						return 1, -1
+					}
+					return 0, 0
+				}}
+				cut, per := core.CutEdges(in.Parent(), pos(bounded))
+				if per[0] == 0 || core.FlowPath(arg, in, func(x ssa.Value) bool { return core.Strip(x) == core.Strip(lf) }, cut, nil) {
+					bad = describeValue(lf)
+				}
+			}
+			c.Decide(bad == "", "R8.10", fmt.Sprintf("reaper-wakes-within-its-tick#%d", nArm), c.Pos(in), "the re-arm delay is the tick constant or a computed delay bounded by it", "PitCsTree.Update re-arms the reaper's timer with a delay ("+bad+") that no test bounds from above: the reaper sleeps until the expiry of the entry that heads the queue now, and an entry inserted meanwhile with a shorter lifetime stays in the PIT long after its lifetime plus the reaping delay")
+		})
+		c.Floor("R8.10", "timers armed by the PIT reaper", nArm, 1)
+	}
+
 }
 
 func isAppend(v ssa.Value) bool {
